@@ -283,7 +283,7 @@ var c14GateExceptions = ExcTable{
 func init() {
 	register(&Property{
 		ID:          "C14",
-		Explanation: "Decides structural necessary conditions of 'output only uses syntax available in the target': R1 every construction of a newer-syntax node outside the parse pass (nullish/logical-assignment/exponent operators, optional chains, templates, arrows, let/const/using, bigint, spread, async/generator, for-of) is dominated by a test that the matching compat.JSFeature bit is not unsupported — in the function itself, in every caller, through a gate wrapper, or preserves an existing node of the same kind — or is a reviewed entry; R2 markSyntaxFeature reports on every path on which the feature is unsupported and every JSFeature constant is consulted by some gate; R3 the feature tables are complete and `supported` overrides are applied in both directions wherever options are built; R4 the embedded runtime text only uses newer syntax inside feature-conditional branches. R6 export-name-diagnostic-scope: the string-export-name diagnostic is gated on IsEntryPoint(), not on user-specified entry points only. R7 cache-hit-replays-diagnostics (shared with C09/R9). R8 implied-features-unmasked (shared with C05/R5). R9 static-block-assign-gate: the js_ast.Property fields read by the conditions that force lowerAllStaticFields under unsupported ClassStaticBlocks are a subset of those read by the conditions that set staticFieldToBlockAssign. R10 implied-features-follow-effective-set: the condition under which fixInvalidUnsupportedJSFeatureOverrides adds implied bits reads options.UnsupportedJSFeatures. R11 marking-traversal-visits-every-child: the C05/R7 analysis. NOT covered: that each lowering emits only older syntax in the JS text of runtime helpers beyond the lexical check; engine-version table values.",
+		Explanation: "Decides structural necessary conditions of 'output only uses syntax available in the target': R1 every construction of a newer-syntax node outside the parse pass (nullish/logical-assignment/exponent operators, optional chains, templates, arrows, let/const/using, bigint, spread, async/generator, for-of) is dominated by a test that the matching compat.JSFeature bit is not unsupported — in the function itself, in every caller, through a gate wrapper, or preserves an existing node of the same kind — or is a reviewed entry; R2 markSyntaxFeature reports on every path on which the feature is unsupported and every JSFeature constant is consulted by some gate; R3 the feature tables are complete and `supported` overrides are applied in both directions wherever options are built; R4 the embedded runtime text only uses newer syntax inside feature-conditional branches. R6 export-name-diagnostic-scope: the string-export-name diagnostic is gated on IsEntryPoint(), not on user-specified entry points only. R7 cache-hit-replays-diagnostics (shared with C09/R9). R8 implied-features-unmasked (shared with C05/R5). R9 static-block-assign-gate: the js_ast.Property fields read by the conditions that force lowerAllStaticFields under unsupported ClassStaticBlocks are a subset of those read by the conditions that set staticFieldToBlockAssign. R10 implied-features-follow-effective-set: the condition under which fixInvalidUnsupportedJSFeatureOverrides adds implied bits reads options.UnsupportedJSFeatures. R11 marking-traversal-visits-every-child: the C05/R7 analysis. R12 regexp-escape-scan-covers-classes: every backslash case of isUnsupportedRegularExpression reaches the p{ / P{ test. R13 object-rest-detectors-look-through-array-rest: exprHasObjectRest and the marking scan of lowerObjectRestHelper have a case for ESpread (two known findings). NOT covered: that each lowering emits only older syntax in the JS text of runtime helpers beyond the lexical check; engine-version table values.",
 		Run: func(p *Prog, tier string) []*RuleResult {
 			return []*RuleResult{c14IntroduceGate(p), c14DiagnoseOrLower(p), c14Tables(p), c14RuntimeText(p), c14RuntimeFeatures(p), c14ExportNameScope(p), c09CacheHitReplay(p, "C14/R7 cache-hit-replays-diagnostics"), c05ImpliedFeaturesUnmasked(p, "C14/R8 implied-features-unmasked"), c14StaticBlockAssignGate(p), c14ImpliedFollowEffective(p), c14RegexpEscapeScan(p), c14ObjectRestThroughArrayRest(p), markingTraversalComplete(p, "C14/R11 marking-traversal-visits-every-child")}
 		},
